@@ -402,6 +402,20 @@ theorem C04_lower_fnptr (pc : Bool) (r : CTy) (as : CTys) (v d : Bool) :
       lowerTy (.ptr false (.ptr pc (.func r as v d))) = .rptr false (.optFn (lowerRet d r) (lowerParams as) v) := by
   simp [lowerTy, canon, isFunc]
 
+/-! ## argument classes -/
+
+/-- `class_preserved_partial`: every scalar other than `long double` is passed in the class the C
+callee expects (and extended the way the C type demands: same width, same signedness). -/
+theorem C04_class_preserved_partial (k : SKind) (h : k ≠ .longDouble) : rClass (lowerScalar k) = cClass k := by
+  cases k <;> simp_all [lowerScalar, rClass, cClass]
+
+/-- region `long_double_by_value`: a by-value `long double` is rendered `u128`, which rustc passes
+in two INTEGER registers while the C callee expects X87 class (memory): every later integer argument
+is shifted. -/
+theorem C04_class_fails_on_long_double :
+    rClass (lowerScalar .longDouble) = [.integer, .integer] ∧ cClass .longDouble = [.x87, .x87up] := by
+  decide
+
 /-! ## ABI table -/
 
 /-- `abi_table` (total, faithful strings): every variant has a distinct keyword, all of them are ABI
